@@ -87,7 +87,10 @@ def _raw(draw):
 
 @st.composite
 def _scorer(draw):
-    sc = draw(S.simple_screen(n_rows=(2, 14), n_plates=(1, 6), ensure_unobserved=1))
+    # many ragged unobserved plates, so that the scorer's internal batches (max_chunk) hold plates of different widths
+    sc = draw(S.simple_screen(n_rows=(6, 30), n_plates=(3, 8), ensure_unobserved=3))
+    if draw(st.integers(0, 3)) != 0:
+        sc["observed"] = []
     n = draw(st.integers(3, 7))
     het = draw(st.booleans())
     thetas = [draw(S.theta_params("additive", sc["ns"], sc["nt"], D=2)) for _ in range(n)]
@@ -98,7 +101,7 @@ def _scorer(draw):
         "het": het,
         "het_scale": [[draw(st.floats(min_value=0.1, max_value=10)) for _ in range(sc["ns"])] for _ in range(n)],
         "dist": draw(_dist(n)),
-        "max_chunk": draw(st.integers(1, 7)),
+        "max_chunk": draw(st.sampled_from([1, 2, 2, 3, 3, 4, 5, 7])),
         "perm_seed": draw(st.integers(0, 10**6)),
     }
 
@@ -250,7 +253,8 @@ def check_case(case):
     rng = np.random.default_rng(case["perm_seed"])
     order = list(plates)
     rng.shuffle(order)
-    for mc, keys in ((case["max_chunk"], sorted(plates)), (50, order)):
+    by_size_desc = sorted(plates, key=lambda k_: -int(plates[k_].size))
+    for mc, keys in ((case["max_chunk"], sorted(plates)), (50, order), (case["max_chunk"], order), (2, by_size_desc)):
         scorer = gd.GaussianDBALScorer(max_chunk=mc, max_triples=math.comb(n, 3) + 3)
         got = scorer.score(plates={k: plates[k] for k in keys}, distance_matrix=cdm, samples=holder, rng=np.random.default_rng(7), progress_bar=False)
         require(sorted(int(k) for k in got) == sorted(plates), "scorer.keys", lambda: "scored plate ids %r, candidates %r" % (sorted(int(k) for k in got), sorted(plates)))
